@@ -29,11 +29,12 @@ type ProgParam struct {
 
 // ProgFunc is one function of the chain.
 type ProgFunc struct {
-	Name     string      `json:"name"`      // "f3" or "m3"
-	Method   bool        `json:"method"`    // pointer-receiver method on *T
-	Params   []ProgParam `json:"params"`    // without the receiver
-	CallLine int         `json:"call_line"` // line of the call to the next function (or of the panic)
-	Words    int         `json:"words"`     // total words including the receiver
+	Name     string      `json:"name"`           // "f3" or "m3"
+	Method   bool        `json:"method"`         // pointer-receiver method
+	Recv     string      `json:"recv,omitempty"` // receiver type name (T or U)
+	Params   []ProgParam `json:"params"`         // without the receiver
+	CallLine int         `json:"call_line"`      // line of the call to the next function (or of the panic)
+	Words    int         `json:"words"`          // total words including the receiver
 }
 
 // Prog is a generated program.
@@ -150,11 +151,16 @@ func GenParam(r *core.Rand) ProgParam {
 // GenProg makes a program: one chain of n functions and pointer-receiver methods.
 func GenProg(r *core.Rand, n int) *Prog {
 	p := &Prog{}
+	nmeth := 0
 	for i := 0; i < n; i++ {
 		f := ProgFunc{Name: fmt.Sprintf("f%d", i)}
 		if r.Chance(1, 3) {
+			// methods on two receiver types share names (M0 on *T and M0 on *U): same method name, different
+			// declaration, in one file
 			f.Method = true
-			f.Name = fmt.Sprintf("M%d", i)
+			f.Recv = []string{"T", "U"}[nmeth%2]
+			f.Name = fmt.Sprintf("M%d", nmeth/2)
+			nmeth++
 			f.Words = 1
 		}
 		budget := 10
@@ -193,6 +199,8 @@ func GenProg(r *core.Rand, n int) *Prog {
 	w("")
 	w("type T struct{ a, b int }")
 	w("")
+	w("type U struct{ s string }")
+	w("")
 	w("var (")
 	w("\tgInt    = 5")
 	w("\tgMap    = map[string]int{\"a\": 1}")
@@ -200,6 +208,7 @@ func GenProg(r *core.Rand, n int) *Prog {
 	w("\tgFunc   = func() {}")
 	w("\tgSliceT = make([]T, 4, 9)")
 	w("\tgT      = &T{1, 2}")
+	w("\tgU      = &U{\"u\"}")
 	w(")")
 	w("")
 	call := func(i int) string {
@@ -212,7 +221,7 @@ func GenProg(r *core.Rand, n int) *Prog {
 			lits = append(lits, pp.Lit)
 		}
 		if f.Method {
-			return "gT." + f.Name + "(" + strings.Join(lits, ", ") + ")"
+			return "g" + f.Recv + "." + f.Name + "(" + strings.Join(lits, ", ") + ")"
 		}
 		return f.Name + "(" + strings.Join(lits, ", ") + ")"
 	}
@@ -229,7 +238,7 @@ func GenProg(r *core.Rand, n int) *Prog {
 			ps = append(ps, fmt.Sprintf("p%d %s", k, f.Params[k].Kind))
 		}
 		if f.Method {
-			w(fmt.Sprintf("func (t *T) %s(%s) {", f.Name, strings.Join(ps, ", ")))
+			w(fmt.Sprintf("func (t *%s) %s(%s) {", f.Recv, f.Name, strings.Join(ps, ", ")))
 		} else {
 			w(fmt.Sprintf("func %s(%s) {", f.Name, strings.Join(ps, ", ")))
 		}
